@@ -32,6 +32,7 @@ type taskSide struct {
 	prog        *Prog
 	lifted      map[ssa.Instruction]bool // helper calls standing for the sites they contain
 	bind        map[*ssa.Parameter]ssa.Value // while analysing a helper: its parameters -> arguments of the call site
+	entry         *ssa.Function // processBlock itself (parent is the function that launches the tasks: the same, or a helper)
 	parentCounter *types.Var // field of Writer/Reader whose address is handed to the tasks as shared counter
 	skippedF, dataF, decodedF *types.Var // fields of the decode result (nil on the encode side)
 }
@@ -108,14 +109,39 @@ func callOf(i ssa.Instruction) *ssa.CallCommon {
 
 func resolveSide(p *Prog, owner string) *taskSide {
 	s := &taskSide{owner: owner, prog: p, cancelConst: cancelValue(p), lifted: map[ssa.Instruction]bool{}}
-	s.parent = p.Method("io", owner, "processBlock")
+	s.entry = p.Method("io", owner, "processBlock")
+	s.parent = s.entry
 	eachInstr(s.parent, func(i ssa.Instruction) {
 		if g, ok := i.(*ssa.Go); ok {
 			s.gos = append(s.gos, g)
 		}
 	})
 	if len(s.gos) == 0 {
-		undecided("anchor unresolved: no go statement in io.%s.processBlock", owner)
+		// "launch one batch and wait" may have been extracted: the launcher is the one same-package helper of
+		// processBlock that contains the go statements; processBlock stays the entry (cancel test, result scan)
+		var launchers []*ssa.Function
+		for _, h := range p.helperClosure(s.entry) {
+			n := 0
+			eachInstr(h, func(i ssa.Instruction) {
+				if _, ok := i.(*ssa.Go); ok {
+					n++
+				}
+			})
+			if n > 0 && h.Parent() == nil {
+				launchers = append(launchers, h)
+			}
+		}
+		if len(launchers) == 1 {
+			s.parent = launchers[0]
+			eachInstr(s.parent, func(i ssa.Instruction) {
+				if g, ok := i.(*ssa.Go); ok {
+					s.gos = append(s.gos, g)
+				}
+			})
+		}
+	}
+	if len(s.gos) == 0 {
+		undecided("anchor unresolved: no go statement in io.%s.processBlock (or in exactly one helper of it)", owner)
 	}
 	for _, g := range s.gos {
 		f := g.Call.StaticCallee()
@@ -139,16 +165,13 @@ func resolveSide(p *Prog, owner string) *taskSide {
 	if !ok {
 		undecided("task type %s is not a struct", s.taskT)
 	}
-	var idCands []*types.Var
+	var idCands, ctrCands []*types.Var
 	for i := 0; i < st.NumFields(); i++ {
 		f := st.Field(i)
 		switch t := f.Type().(type) {
 		case *types.Pointer:
 			if isInt32Word(t.Elem()) {
-				if s.counter != nil {
-					undecided("task type %s has two *int32 fields", s.taskT)
-				}
-				s.counter = f
+				ctrCands = append(ctrCands, f)
 			}
 			if n := namedOf(t.Elem()); n != nil && n.Obj().Pkg() != nil && n.Obj().Pkg().Path() == "sync" && n.Obj().Name() == "WaitGroup" {
 				s.wg = f
@@ -165,6 +188,26 @@ func resolveSide(p *Prog, owner string) *taskSide {
 			}
 			s.stream = f
 		}
+	}
+	switch len(ctrCands) {
+	case 0:
+	case 1:
+		s.counter = ctrCands[0]
+	default:
+		// several *int32 fields: the hand-off counter is the one that is compared with (or CAS-ed from) an int32 field
+		var hits []*types.Var
+		for _, c := range ctrCands {
+			for _, idc := range idCands {
+				if comparedWithCounter(s.fn, idc, c) {
+					hits = append(hits, c)
+					break
+				}
+			}
+		}
+		if len(hits) != 1 {
+			undecided("task type %s has %d *int32 fields and %d of them are compared with a task id", s.taskT, len(ctrCands), len(hits))
+		}
+		s.counter = hits[0]
 	}
 	switch len(idCands) {
 	case 0:
@@ -213,7 +256,7 @@ func resolveSide(p *Prog, owner string) *taskSide {
 		undecided("task function %s: cannot identify result error field", s.fn)
 	}
 	// the parent's counter field: the address stored into the task's counter pointer
-	for _, bf := range append([]*ssa.Function{s.parent}, p.helperClosure(s.parent)...) {
+	for _, bf := range append([]*ssa.Function{s.entry}, p.helperClosure(s.entry)...) {
 		eachInstr(bf, func(i ssa.Instruction) {
 			if st, ok := i.(*ssa.Store); ok && fieldVarOfAddr(st.Addr) == s.counter {
 				if fv := fieldVarOfAddr(st.Val); fv != nil {
@@ -999,6 +1042,31 @@ func ruleCancel(p *Prog, r *RuleResult) {
 				}
 			}
 		}
+		if nreads == 0 && s.entry != s.parent {
+			// the launcher returns the results to processBlock: every return must come after Wait
+			okRet, nret := true, 0
+			for _, b := range s.parent.Blocks {
+				ret, isRet := b.Instrs[len(b.Instrs)-1].(*ssa.Return)
+				if !isRet || b == s.parent.Recover {
+					continue
+				}
+				nret++
+				dom := false
+				for w := range waits {
+					if instrDominates(w, ret) {
+						dom = true
+					}
+				}
+				if !dom {
+					okRet = false
+					r.fail(fmt.Sprintf("%s#results-read", pname), p.IPos(ret), "the function that launches the tasks can return to processBlock (which scans the results) on a path that has not passed WaitGroup.Wait")
+				}
+			}
+			if okRet && nret > 0 {
+				nreads = 1
+				r.ok(fmt.Sprintf("%s returns to %s (which scans the results) only after Wait", pname, s.entry.Name()), p.Pos(s.parent.Pos()))
+			}
+		}
 		if nreads == 0 {
 			r.fail(pname+"#results-read", p.Pos(s.parent.Pos()), "processBlock never reads the task results: task errors are dropped")
 		} else if len(r.Findings) == 0 || nreads > 0 {
@@ -1070,7 +1138,7 @@ func rulePoison(p *Prog, r *RuleResult) {
 		cancel = c.Value.Int64()
 	}
 	fname := p.FnName(s.fn)
-	pname := p.FnName(s.parent)
+	pname := p.FnName(s.entry)
 	// shape A: the cancel exit of the spin loop stores a non-nil task error
 	shapeA := false
 	for _, e := range s.cancelEdges(s.fn) {
@@ -1090,7 +1158,7 @@ func rulePoison(p *Prog, r *RuleResult) {
 	// every possibly-nil return and every go statement is dominated by the not-cancelled edge.
 	shapeB := false
 	var why string
-	for _, b := range s.parent.Blocks {
+	for _, b := range s.entry.Blocks {
 		ifi := blockIf(b)
 		if ifi == nil {
 			continue
@@ -1126,20 +1194,20 @@ func rulePoison(p *Prog, r *RuleResult) {
 		cancelledSucc := succFor(pos, bo.Op == token.EQL)
 		liveEdge := edge{b, 1 - cancelledSucc}
 		good := true
-		for _, blk := range s.parent.Blocks {
+		for _, blk := range s.entry.Blocks {
 			for _, in := range blk.Instrs {
 				switch x := in.(type) {
 				case *ssa.Return:
 					if len(x.Results) == 0 {
 						continue
 					}
-					if retMayBeNil(x, len(x.Results)-1) && !edgeDominates(s.parent, liveEdge, blk) {
+					if retMayBeNil(x, len(x.Results)-1) && !edgeDominates(s.entry, liveEdge, blk) {
 						// returns that precede the test on an error path are fine only if non-nil; this one may be nil
 						good = false
 						why = fmt.Sprintf("return at %s may report success without passing the cancel test", p.IPos(x))
 					}
 				case *ssa.Go:
-					if !edgeDominates(s.parent, liveEdge, blk) {
+					if !edgeDominates(s.entry, liveEdge, blk) {
 						good = false
 						why = fmt.Sprintf("go statement at %s not dominated by the cancel test", p.IPos(x))
 					}
@@ -1156,7 +1224,7 @@ func rulePoison(p *Prog, r *RuleResult) {
 		if why != "" {
 			msg += " (" + why + ")"
 		}
-		r.fail(pname+"#cancel-sticky", p.Pos(s.parent.Pos()), msg)
+		r.fail(pname+"#cancel-sticky", p.Pos(s.entry.Pos()), msg)
 	}
 	// first-error scan: the loop over results returns r.err when non-nil (in processBlock or in a scan helper whose
 	// result processBlock returns)
@@ -1178,13 +1246,13 @@ func rulePoison(p *Prog, r *RuleResult) {
 		}
 	})
 	errEdgeReturnsError(p, r, sf, s.errField)
-	if sf != s.parent && sc != nil {
-		scanResultPropagated(p, r, s.parent, sc)
+	if sf != s.entry && sc != nil {
+		scanResultPropagated(p, r, s.entry, sc)
 	}
 	if !scan {
-		r.fail(pname+"#first-error", p.Pos(s.parent.Pos()), "processBlock never returns a task's error: a failed task is not reported by the enclosing call")
+		r.fail(pname+"#first-error", p.Pos(s.entry.Pos()), "processBlock never returns a task's error: a failed task is not reported by the enclosing call")
 	} else {
-		r.ok(pname+" returns the first task error", p.Pos(s.parent.Pos()))
+		r.ok(pname+" returns the first task error", p.Pos(s.entry.Pos()))
 	}
 	r.floor(1, r.Obligations, "poison obligations")
 }
